@@ -4,7 +4,7 @@ import ast
 from sa.core import (AnalysisError, FUNC, assignments, call_name, class_attr, const, dotted, enclosing, enclosing_func,
                      enclosing_stmt, is_attr, is_name, is_self_attr, literal, norm, params, parent, walk_local, names_in)
 from sa.guards import facts
-from sa.symeval import SymEval, TS, SInt, Obj, PyExc, Undetermined
+from sa.symeval import SymEval, TS, SInt, Obj, PyExc, Undetermined, Rewrite
 
 PROP = "C13"
 REL = "ak/ppobj.py"
@@ -71,6 +71,9 @@ def _columns(cx, repo, writer, reader):
                     ev = SymEval(repo)
                     try:
                         text = ev.call(writer, [], self_val=col)
+                    except Rewrite as rw:
+                        cx.ob("R13a", rw.node, False, f"the writer emits field names verbatim, but the reader rewrites them: {rw.detail}", stmt="reader rewrites names")
+                        raise AnalysisError("R13a", "reader", "stopped after a rewriting reader was reported")
                     except Undetermined as u:
                         raise AnalysisError("R13a", f"{REL}::ReprColumn.to_fmt_str", f"writer not interpretable: {u}")
                     except PyExc as e:
@@ -82,6 +85,10 @@ def _columns(cx, repo, writer, reader):
                     ev2 = SymEval(repo, resolver=resolver)
                     try:
                         res = ev2.call(reader, [text], self_val=Obj("_ColumnsParsedFmt"))
+                    except Rewrite as rw:
+                        cx.ob("R13a", rw.node, False, f"the writer emits field names verbatim, but the reader rewrites them: {rw.detail}; such a column is not found again "
+                              "(setter: unknown field; constructor: another / missing column)", stmt="reader rewrites names")
+                        continue
                     except Undetermined as u:
                         raise AnalysisError("R13a", f"{REL}::_ColumnsParsedFmt._parse_col_fmt", f"reader not interpretable on {text!r}: {u}")
                     except PyExc as e:
@@ -108,6 +115,9 @@ def _columns(cx, repo, writer, reader):
             cx.ob("R13a", reader, not bad, f"{label}: parsed as expected" if not bad else f"{label}: parsed with {bad}", stmt=f"read {label}")
         except PyExc as e:
             cx.ob("R13a", reader, False, f"{label}: reader raises {e.name}", stmt=f"read {label}")
+        except Rewrite as rw:
+            cx.ob("R13a", rw.node, False, f"the writer emits field names verbatim, but the reader rewrites them: {rw.detail}", stmt="reader rewrites names")
+            raise AnalysisError("R13a", "reader", "stopped after a rewriting reader was reported")
         except Undetermined as u:
             raise AnalysisError("R13a", f"{REL}::_ColumnsParsedFmt._parse_col_fmt", f"reader not interpretable on {label}: {u}")
 
@@ -186,6 +196,9 @@ def _slots(cx, repo, rc_init, writer):
         cx.ob("R13b", ws, ok, f"a three-column list {text!r} reads back as the same three columns in order" if ok else f"column list {text!r} reads back as {names!r}", stmt="column list roundtrip")
     except PyExc as e:
         cx.ob("R13b", ws, False, f"column list roundtrip raises {e.name}", stmt="column list roundtrip")
+    except Rewrite as rw:
+        cx.ob("R13a", rw.node, False, f"the writer emits field names verbatim, but the reader rewrites them: {rw.detail}", stmt="reader rewrites names")
+        raise AnalysisError("R13a", "reader", "stopped after a rewriting reader was reported")
     except Undetermined as u:
         raise AnalysisError("R13b", f"{REL}::ReprStructure._get_fmt_str", f"list roundtrip not interpretable: {u}")
     # clone
@@ -228,6 +241,9 @@ def _table(cx, repo, t_writer, t_reader_init, t_split, t_lines):
             se.to_ts = to_ts
             try:
                 text = ev.call(t_writer, [], self_val=fmt)
+            except Rewrite as rw:
+                cx.ob("R13a", rw.node, False, f"the writer emits field names verbatim, but the reader rewrites them: {rw.detail}", stmt="reader rewrites names")
+                raise AnalysisError("R13a", "reader", "stopped after a rewriting reader was reported")
             except Undetermined as u:
                 raise AnalysisError("R13c", f"{REL}::PPTableFormat._get_fmt_str", f"writer not interpretable: {u}")
             finally:
@@ -239,6 +255,9 @@ def _table(cx, repo, t_writer, t_reader_init, t_split, t_lines):
             except PyExc as e:
                 cx.ob("R13c", t_reader_init, False, f"{label}: writer emits {text!r}; reader raises {e.name}", stmt=f"table roundtrip {label}")
                 continue
+            except Rewrite as rw:
+                cx.ob("R13a", rw.node, False, f"the writer emits field names verbatim, but the reader rewrites them: {rw.detail}", stmt="reader rewrites names")
+                raise AnalysisError("R13a", "reader", "stopped after a rewriting reader was reported")
             except Undetermined as u:
                 raise AnalysisError("R13c", f"{REL}::_PPTableParsedFmt.__init__", f"reader not interpretable on {text!r}: {u}")
             got_cols = me.attrs.get("cols_parsed_fmt")
@@ -265,6 +284,9 @@ def _table(cx, repo, t_writer, t_reader_init, t_split, t_lines):
             cx.ob("R13d", t_reader_init, ok, f"{s!r}: both sections read as 'unchanged'" if ok else f"{s!r}: reads as columns={src!r} limits={me.attrs.get('vis_lines')!r}", stmt=f"separators only {s!r}")
         except PyExc as e:
             cx.ob("R13d", t_reader_init, False, f"{s!r}: reader raises {e.name}", stmt=f"separators only {s!r}")
+        except Rewrite as rw:
+            cx.ob("R13a", rw.node, False, f"the writer emits field names verbatim, but the reader rewrites them: {rw.detail}", stmt="reader rewrites names")
+            raise AnalysisError("R13a", "reader", "stopped after a rewriting reader was reported")
         except Undetermined as u:
             raise AnalysisError("R13d", f"{REL}::_PPTableParsedFmt.__init__", str(u))
 
